@@ -1,6 +1,169 @@
-/-! `pmodel inverse`: line-protocol driver (stub — replaced by the owner of this model). -/
-namespace Driver.Inverse
+import PhreeqcVerif.Model.Util
+import PhreeqcVerif.Model.Inverse
+/-! `pmodel inverse`: line-protocol driver of the inverse-modelling model (see tools/props/c18.py).
 
-def run : IO Unit := IO.eprintln "pmodel inverse: not implemented"
+Input lines (doubles as 16 hex digits of the bit pattern, converted to `Rat` exactly):
+  problem                                   start a new problem
+  opts <tol> <mineral_water> <water_unc> <carbon> <ialk> <icarb|-1> <range>
+  soln <water> <phunc> <dalkdph> <dalkdc> <T_0> … <T_ne-1>
+  elt <isE> <isAlkM> <alkName> <zalk> <unc_0> …
+  phase <constr> <force> <alk> (<row> <tokcoef> <mastercoef>)*
+  redox <coef> <alk> <salk> (<row> <tokcoef>)*
+  matrix                                    → ROW lines (sparse, dense column index) and a DELTA line
+  check <t> X <x…> MIN <…> MAX <…>          → CHECK line (checkModel and the failing clauses)
+  search <nph> <nsol> <minimal> <range> <forced> <feas:nz>*   → SEARCH line
+-/
+namespace Driver.Inverse
+open PhreeqcVerif PhreeqcVerif.Util PhreeqcVerif.Inverse
+
+/-- exact value of an IEEE double (inf / nan → 0) -/
+def ratOfBits (u : UInt64) : Rat :=
+  let n := u.toNat
+  let sign : Int := if n >>> 63 = 1 then -1 else 1
+  let ex := (n >>> 52) % 2048
+  let man : Nat := n % (2 ^ 52)
+  if ex = 2047 then 0
+  else if ex = 0 then mkRat (sign * Int.ofNat man) (2 ^ 1074)
+  else
+    let m : Int := sign * Int.ofNat (2 ^ 52 + man)
+    if ex ≥ 1075 then ((m * Int.ofNat (2 ^ (ex - 1075)) : Int) : Rat) else mkRat m (2 ^ (1075 - ex))
+
+def ratOfHex (s : String) : Rat := match unhex64 s with | some u => ratOfBits u | none => 0
+
+def ratToFloat (r : Rat) : Float :=
+  let n := r.num.natAbs
+  let d := r.den
+  let l := max n.log2 d.log2
+  let sh := if l > 900 then l - 900 else 0
+  let n' := n >>> sh
+  let d' := d >>> sh
+  let v := if d' = 0 then 0.0 else n'.toFloat / d'.toFloat
+  if r.num < 0 then -v else v
+
+def hexOfRat (r : Rat) : String := hexOfFloat (ratToFloat r)
+
+def natOf (s : String) : Nat := s.toNat?.getD 0
+def intOf (s : String) : Int := s.toInt?.getD 0
+
+structure PState where
+  p : Problem := default
+  ptoks : List (Int × Bool × Rat × List (Int × Rat × Rat)) := []   -- phases as read (constr, force, alk, tokens), reversed
+  rtoks : List (Rat × Rat × Rat × List (Int × Rat)) := []          -- redox as read, reversed
+
+def triples : List String → List (Int × Rat × Rat)
+  | a :: b :: c :: rest => (intOf a, ratOfHex b, ratOfHex c) :: triples rest
+  | _ => []
+def pairs : List String → List (Int × Rat)
+  | a :: b :: rest => (intOf a, ratOfHex b) :: pairs rest
+  | _ => []
+
+/-- finish the problem: phases / redox need `ne` and `iAlk` -/
+def PState.problem (s : PState) : Problem :=
+  let p := s.p
+  let ne := p.elts.length
+  { p with
+    phases := s.ptoks.reverse.map fun (c, f, alk, toks) => Phase.ofTokens ne p.iAlk toks alk c f
+    redox := s.rtoks.reverse.map fun (coef, alk, salk, toks) => Redox.ofTokens ne p.iAlk toks coef alk salk }
+
+def showRow (p : Problem) (r : Row) : String :=
+  let kind := match r.kind with | .opt => "opt" | .eq => "eq" | .le => "le"
+  let n := p.colIndex Var.water + 1
+  let dense : Array Rat := r.coeffs.foldl (fun a vc =>
+    let c := p.colIndex vc.1
+    if c < a.size then a.set! c (a.getD c 0 + vc.2) else a) (Array.replicate n 0)
+  let cells := (List.range n).filterMap fun c => let v : Rat := dense.getD c 0
+    if v = 0 then none else some s!"{c}:{hexOfRat v}"
+  s!"ROW {kind} {hexOfRat r.rhs} " ++ " ".intercalate cells
+
+def modelOf (p : Problem) (x mn mx : Array Rat) : Model :=
+  let a : Var → Rat := fun v => x.getD (p.colIndex v) 0
+  let an : Var → Rat := fun v => mn.getD (p.colIndex v) 0
+  let ax : Var → Rat := fun v => mx.getD (p.colIndex v) 0
+  decode a an ax
+
+/-- clauses of `Admissible` that fail, with the worst residual -/
+def diagnose (p : Problem) (t : Rat) (m : Model) : List String :=
+  let mb := (List.range p.ne).filter fun e => decide (absR (p.mbRes m e) > t)
+  let up := (List.range p.ns).flatMap fun q => (List.range p.ne).filterMap fun e =>
+    if p.active q e && decide (m.eps e q > p.bound q e * m.alpha q + t) then some s!"epsUp:{q}:{e}" else none
+  let low := (List.range p.ns).flatMap fun q => (List.range p.ne).filterMap fun e =>
+    if p.active q e && (if p.T q e = 0 then decide (m.eps e q < -t) else decide (-(m.eps e q) > p.lowBound q e * m.alpha q + t))
+    then some s!"epsLow:{q}:{e}" else none
+  let al := (List.range (p.ns - 1)).filterMap fun q => if decide (m.alpha q < -t) then some s!"alpha:{q}" else none
+  let fin := if decide (absR (m.alpha (p.ns - 1) - 1) > t) then ["alphaFinal"] else []
+  let ph := (List.range p.np).filterMap fun i =>
+    let c := (p.phases.getD i default).constr
+    if (c > 0 && decide (m.x i < -t)) || (c < 0 && decide (m.x i > t)) then some s!"sign:{i}" else none
+  let rg := if p.range then
+      ((List.range p.ns).filterMap fun q =>
+        if decide (m.alpha q < m.minA q - t) || decide (m.alpha q > m.maxA q + t) then some s!"rangeA:{q}" else none) ++
+      ((List.range p.np).filterMap fun i =>
+        if decide (m.x i < m.minX i - t) || decide (m.x i > m.maxX i + t) then some s!"rangeX:{i}" else none)
+    else []
+  mb.map (fun e => s!"mb:{e}") ++ up ++ low ++ al ++ fin ++ ph ++ rg
+
+def maxAbs (l : List Rat) : Rat := l.foldl (fun a b => if absR b > a then absR b else a) 0
+
+def handle (s : PState) (line : String) : PState × List String :=
+  match words line with
+  | ["problem"] => ({}, [])
+  | ["opts", tol, mw, wu, carbon, ialk, icarb, range] =>
+    ({ s with p := { s.p with tol := ratOfHex tol, mineralWater := mw != "0", waterUnc := ratOfHex wu, carbon := carbon != "0",
+                              iAlk := natOf ialk, iCarb := if intOf icarb < 0 then none else some (natOf icarb),
+                              range := range != "0" } }, [])
+  | "soln" :: w :: pu :: dp :: dc :: ts =>
+    ({ s with p := { s.p with solns := s.p.solns ++ [{ totals := ts.map ratOfHex, water := ratOfHex w, phUnc := ratOfHex pu,
+                                                        dalkDph := ratOfHex dp, dalkDc := ratOfHex dc }] } }, [])
+  | "elt" :: isE :: isA :: an :: z :: us =>
+    ({ s with p := { s.p with elts := s.p.elts ++ [{ isE := isE != "0", isAlkM := isA != "0", alkName := an != "0",
+                                                      zalk := ratOfHex z, unc := us.map ratOfHex }] } }, [])
+  | "phase" :: c :: f :: alk :: toks => ({ s with ptoks := (intOf c, f != "0", ratOfHex alk, triples toks) :: s.ptoks }, [])
+  | "redox" :: coef :: alk :: salk :: toks =>
+    ({ s with rtoks := (ratOfHex coef, ratOfHex alk, ratOfHex salk, pairs toks) :: s.rtoks }, [])
+  | ["matrix"] =>
+    let p := s.problem
+    let rows := p.setupMatrix.map (showRow p)
+    let delta := "DELTA " ++ " ".intercalate (p.vars.map fun v => toString (p.signOf v))
+    (s, rows ++ [delta, s!"DIMS ns {p.ns} ne {p.ne} np {p.np} nr {p.nr} ncol {p.colIndex Var.water + 1} nopt {p.countOptimize} neq {p.eqRows.length} nle {p.leRows.length}"])
+  | "check" :: t :: rest =>
+    let p := s.problem
+    let n := p.colIndex Var.water + 1
+    let vals := rest.filter (fun w => w != "X" && w != "MIN" && w != "MAX") |>.map ratOfHex
+    let x := (vals.take n).toArray
+    let mn := ((vals.drop n).take n).toArray
+    let mx := ((vals.drop (2 * n)).take n).toArray
+    let m := modelOf p x mn mx
+    let tt := ratOfHex t
+    let ok := p.checkModel tt m
+    let bad := diagnose p tt m
+    let worstMb := maxAbs ((List.range p.ne).map (p.mbRes m))
+    let worstCh := maxAbs ((List.range p.ns).map (p.chargeRes m))
+    (s, [s!"CHECK {if ok then "ok" else "fail"} mb {hexOfRat worstMb} charge {hexOfRat worstCh} water {hexOfRat (absR (p.waterRes m))} " ++
+         " ".intercalate bad])
+  | "search" :: nph :: nsol :: minimal :: range :: forced :: table =>
+    let tab : Array (Bool × Nat) := (table.map fun w =>
+      match w.splitOn ":" with
+      | [f, nz] => (f != "0", natOf nz)
+      | _ => (false, 0)).toArray
+    let c : SearchCfg := { nph := natOf nph, nsol := natOf nsol, minimal := minimal != "0", range := range != "0", forced := natOf forced }
+    let fin := 2 ^ (c.nbits - 1)
+    -- the table is indexed by the mask without the final-solution bit; masks without that bit are infeasible
+    let o : Oracle := fun mask => if mask.testBit (c.nbits - 1) then tab.getD (mask % fin) (false, 0) else (false, 0)
+    let st := search o c
+    let sh (l : List Nat) := " ".intercalate (l.map toString)
+    (s, [s!"SEARCH reported {sh st.reported} | good {sh st.good} | minimal {sh st.minimal} | nbad {st.bad.length} calls {st.calls}"])
+  | [] => (s, [])
+  | _ => (s, ["bad-line " ++ line])
+
+def run : IO Unit := do
+  let stdin ← IO.getStdin
+  let stdout ← IO.getStdout
+  let lines ← readLines stdin
+  let mut s : PState := {}
+  for l in lines do
+    let (s', out) := handle s l
+    s := s'
+    for o in out do stdout.putStrLn o
+  stdout.flush
 
 end Driver.Inverse
